@@ -39,7 +39,7 @@ def _profile_functions(fn):
 
 
 def _task(args):
-    (modname, params, prefixes, max_paths, max_seconds, sample_every, seed, profile, timeout_ms) = args
+    (modname, params, prefixes, max_paths, max_seconds, sample_every, seed, profile, timeout_ms, dumpdir) = args
     from symx import core
     from symx.api import SymAPI
     warnings.simplefilter("ignore")
@@ -64,7 +64,10 @@ def _task(args):
                 out["functions"] = funcs
                 want = True
             else:
-                res = core.run_path(body, prefix, stats, want_model=want, seed=seed, timeout_ms=timeout_ms)
+                dump = None
+                if dumpdir and n % 10 == 1:
+                    dump = (dumpdir, 2)
+                res = core.run_path(body, prefix, stats, want_model=want, seed=seed, timeout_ms=timeout_ms, dump=dump)
             n += 1
             alts = res.pending
             if seed:
@@ -111,7 +114,7 @@ class LevelResult(object):
 
 
 def explore(modname, params, budget_s, nproc=None, sample_every=10, seed=0, max_violations=200,
-            chunk_paths=150, chunk_seconds=8.0, timeout_ms=20000, max_samples=400):
+            chunk_paths=150, chunk_seconds=8.0, timeout_ms=20000, max_samples=400, dumpdir=None):
     """Explore every feasible path of `modname.harness` under `params`.
     Returns a LevelResult; .complete is True iff the whole tree was explored."""
     nproc = nproc or min(16, os.cpu_count() or 1)
@@ -134,7 +137,7 @@ def explore(modname, params, budget_s, nproc=None, sample_every=10, seed=0, max_
                 small = len(outstanding) + len(queue) < nproc
                 args = (modname, params, batch, 12 if small else chunk_paths, 2.0 if small else chunk_seconds,
                         (1 if ntask <= 6 else sample_every) if len(res.samples) < max_samples else 0, (seed * 1000003 + ntask) if seed else 0,
-                        first, timeout_ms)
+                        first, timeout_ms, dumpdir if ntask % 3 == 1 else None)
                 first = False
                 outstanding.append(pool.apply_async(_task, (args,)))
             # collect
